@@ -277,6 +277,10 @@ def check(case):
         nt = True
     fails = []
     I0, I1 = np.array(m0.current), np.array(m1.current)
+    if len(I0) != len(t0.pulses) or len(I1) != len(tv.pulses):
+        return Result(fails=[('structure:pulse-count', 'the program has %d / %d pulses for base / variant, the end points of the '
+                              'two descriptions give %d / %d' % (len(I0), len(I1), len(t0.pulses), len(tv.pulses)))],
+                      nontrivial=True, labels=sorted(set(labels)))
     imax = np.abs(I0).max()
     # classification of any difference (computed once, on the first failure): known finding F-C06
     _cls = {}
